@@ -13,7 +13,7 @@ SPECS = os.path.join(ROOT, "specs")
 HARNESS = os.path.join(ROOT, "harness")
 WORK = os.path.join(ROOT, "work")
 OUT = os.path.join(ROOT, "out")
-EVID = os.path.join(ROOT, "evidence")
+EVID = os.environ.get("VERIF_EVIDENCE_DIR") or os.path.join(ROOT, "evidence")
 REPO = os.environ.get("VERIF_REPO", "/repo")
 NCPU = os.cpu_count() or 4
 
@@ -277,8 +277,18 @@ def build_harness(ctx, race=False):
     cmd = ["go", "build", "-tags", "verif", "-o", binp]
     if race:
         cmd.insert(2, "-race")
+    if REPO != "/repo":
+        # an isolated copy of the repository (seeded changes are tried there): same module, other replace target
+        alt = os.path.join(ctx.work, "go.alt.mod")
+        with open(os.path.join(HARNESS, "go.mod")) as f:
+            mod = f.read().replace("=> /repo", "=> " + REPO)
+        with open(alt, "w") as f:
+            f.write(mod)
+        shutil.copy(os.path.join(REPO, "go.sum"), os.path.join(ctx.work, "go.alt.sum"))
+        cmd += ["-modfile", alt]
     cmd.append(".")
-    shutil.copy(os.path.join(REPO, "go.sum"), os.path.join(HARNESS, "go.sum"))
+    if REPO == "/repo":
+        shutil.copy(os.path.join(REPO, "go.sum"), os.path.join(HARNESS, "go.sum"))
     p = subprocess.run(cmd, cwd=HARNESS, env=GOENV, capture_output=True, text=True)
     if p.returncode != 0:
         raise ToolFailure("harness build failed:\n" + p.stdout + p.stderr)
